@@ -155,11 +155,13 @@ example : ([0xc0, 0x80, 0x58, 0xe1] : Bytes).length < 5 := by decide
 
 * Nothing of the property text is left out: acceptance and delivered sequence are settled for all byte
   strings by `decode_eq_spec` (= `accepts_iff` + `calls_eq`).
-* How the zero-to-one clause is proved: `float32(u)/120 = nearest(u/120)` (`u < 128`) and
-  `float32(u)/15120 = nearest(u/15120)` (`u < 16384`) are established by kernel evaluation of both
-  sides over the whole finite domain (`Ivg/Lemmas/SpecZ2Oa…d.lean`, 1024 values per declaration,
-  `decide +kernel`, no `native_decide`), not by a general lemma about `roundPack` under rescaling.
-  The integer and `/64` forms (real, coordinate) are proved structurally (`SpecL.ofRatio_pow2`).
+* How the zero-to-one clause is proved: `SpecL.ofInt_div_eq_ofRatio` (`Ivg/Lemmas/SpecDiv.lean`) shows in
+  general that for integers `0 < u, d < 2^24` the soft-float quotient `float32(u) / float32(d)` (`Num.div`:
+  27-bit pre-scaling, truncated quotient, sticky bit, one rounding) is the float32 nearest to the rational
+  `u/d` (`F32.ofRatio`: a different pre-scaling) — via `rq`, round-to-nearest-even stated on the exact
+  rational, which `roundPack` computes (`roundPack_div`) and which is invariant under rescaling
+  (`rq_scale`, `rq_cancel`).  The integer and `/64` forms (real, coordinate) are exact
+  (`SpecL.ofRatio_pow2`).  No case enumeration over number values is involved.
 * `Decode` with options (`WithPalette`, `WithColorAt`) is outside C03 (see C04).
 * What "the specification" leaves open and `FFV0` (like the Go code) decides: a metadata chunk with a
   MID other than 0 or 1 is rejected (the text defines only MIDs 0 and 1 and does not say whether unknown
